@@ -15,7 +15,7 @@ git -C $WT checkout -q -- . ; git -C $WT clean -fdq
 echo "$P-$K: pristine_demo=$PRE build=$B tests_pass=$T patched_demo=$POST"
 if [ $PRE -eq 0 ] && [ $B -eq 0 ] && [ "$T" = "1" ] && [ $POST -ne 0 ]; then
   D=/verif/seeded/$P-$K; mkdir -p $D
-  cp $OUT/patch.diff $D/; cp $OUT/demo.* $OUT/run_demo.sh $OUT/README.md $D/ 2>/dev/null
+  cp $OUT/patch.diff $D/; cp $OUT/*.c $OUT/*.h $OUT/*.sh $OUT/*.py $OUT/README.md $D/ 2>/dev/null
   tail -5 /tmp/seed_v_post.log > $D/demo_output_patched.txt
   python3 - "$P" "$K" "$D" <<'PY'
 import json,sys,re
